@@ -135,8 +135,8 @@ def nontrivial(op):
 
 ASSUME = [
     "accumulators do not overflow: the theorems are over unbounded Int; the harness uses int32 accumulators with |pixel| <= 3000, |tap| <= 9, kernel length <= 9 (signed overflow would be UB and is checked by UBSan)",
-    "float32 accumulators (pixel type g32f): partial (float) -- the Lean model instantiated with Float32 reproduces the accumulation order (bit patterns compared); the Spec is judged with tolerance ks*2.4e-7*sum|terms|; no theorem covers float rounding",
-    "convolve_2d accumulates in float: the Int model agrees while all partial sums are integers below 2^24 (true for the generated values)",
+    "float32 accumulators (pixel type g32f): partial (float) RELATIVE TO FloatSpec -- the same generic model instantiated with the rounded arithmetic of an arbitrary FloatSpec is proved to be within ((1+eps)^(2n)-1)*(sum|terms| + n*tiny) <= 4*n*eps*(...) of the textbook sum (Props/C15Float.lean, C15_float_*): the judge's tolerance ks*2.4e-7*sum|terms|; trusted: the target's binary32 arithmetic satisfies FloatSpec (eps = 2^-24) and accumulates left to right without FMA; the model instantiated with Float32 reproduces the accumulation bit for bit",
+    "convolve_2d accumulates in float: the Int model agrees while sum|terms| <= 2^24 on integer data (C15_float_exact_on_small_integers proves the float accumulation exact under FloatSpec; true for the generated values)",
     "multi-channel pixels are processed channel by channel (static_transform): the model is per channel; observed through rgb32s / planar rgb8 sources, not proven",
     "extend_row/col/boundary: sources are non-empty (extend_constant of an empty image is undefined; gil::image reports 0x0 for zero-area results); options output_ignore/output_zero are outside their contract (BOOST_ASSERT_MSG(false))",
 ]
@@ -152,7 +152,7 @@ def compile_all(ctx):
     return bins, errs
 
 def run(ctx, ops=None):
-    obligations, discharged = vlib.standard_proof_steps(ctx)
+    obligations, discharged = vlib.standard_proof_steps(ctx, extra_props=["GilVerif.Props.C15Float"])
     bins, errs = compile_all(ctx)
     samples, distinct = [], 0
     for d, e in errs:
@@ -177,7 +177,7 @@ def run(ctx, ops=None):
              "non-trivial = non-empty image and kernel length >= 2 (c1, c2) or extend count > 0 (ex); distinct op lines counted",
         samples=samples, distinct_nontrivial=distinct, assumptions=ASSUME, trusted_base=vlib.TRUSTED_BASE,
         extra={"input_distribution": kinds, "translator_symbols": None,
-               "open_statements": ["float accumulators: no theorem (partial (float))"]},
+               "open_statements": ["float accumulators: proved relative to FloatSpec only (partial (float))"]},
         exhaustive=False)
 
 def replay(ctx, path):
